@@ -106,10 +106,13 @@ PROPS = {
                  "far-future/past timestamps in any bundled zone, grids whose rows and columns disagree / zero or duplicate columns / "
                  "odd ver, chains nested 1..64 deep, plus decoder images of foreign Hayson/Zinc documents and of both decoders on "
                  "generated values; each offered to to_zinc_string, ToZinc (typed), serde_json::to_string/to_value (Value and typed), "
-                 "Display, Dict::dis/dict_to_dis under catch_unwind. oracle = returned. distinct = distinct Debug renderings"),
+                 "Display, to_string/format!, Dict::dis/dict_to_dis under catch_unwind; and streamed (ToZinc::to_zinc(writer), serde_json::to_writer) into "
+                 "writers that take 1-7 bytes per write() and return Interrupted (the bytes received must be exactly the buffered "
+                 "encoding) or fail for good at a chosen offset (an error must be returned, never success or a panic, and what was "
+                 "written is a prefix of the buffered encoding). oracle = returned. distinct = distinct Debug renderings"),
         "assumptions": ["nesting depth <= 64 as the property bounds it", "a returned Err counts as 'returned'"],
         "require_strata": {"both": ["foreign:json-image", "foreign:zinc-image", "illformed:xstr", "illformed:grid", "illformed:dict",
-                                    "illformed:dateTime", "illformed:ref", "deep:64", "cross-codec"]},
+                                    "illformed:dateTime", "illformed:ref", "deep:64", "cross-codec", "writer:short-writes", "writer:fails-midway"]},
         "min_evals": {"quick": 50_000, "thorough": 1_000_000},
     },
     "C12": {
@@ -134,12 +137,13 @@ PROPS = {
         "thorough": [phase(16, 6.0, 1200)],
         "rule": ("cases = generated values (every scalar kind in turn + nested values): exactly one of the 18 is_* predicates is true and it "
                  "is the model's kind; HaystackKind::from(&Value); every TryFrom<&Value> (17 target types) and every HaystackDict getter "
-                 "(14) succeeds iff the kind matches and returns the stored payload (strict model equality), absent keys give None; "
+                 "(14) succeeds iff the kind matches and returns the stored payload (strict model equality), absent keys give None; the 15 typed "
+                 "Hayson deserialisers (Marker .. Grid) fed the Hayson text of the value succeed iff the kind matches and return the payload; "
                  "has/missing/has_marker/has_na/has_remove/id/safe_id/ts; kind <-> u8 <-> name checked exhaustively over all 256 codes, all "
                  "names and ~110 near-miss names; Grid::make_from_dicts / _with_meta / Value::make_grid_from_dicts on random record lists: "
                  "rows kept in order, columns = sorted distinct union of keys, every row key is a column, Index and iteration agree"),
         "assumptions": ["kind table part is exhaustive; the value part is sampled"],
-        "require_strata": {"both": ["kind-code", "kind-name", "kind-name-nearmiss", "grid-build", "grid", "dict", "list", "dateTime", "xstr"]},
+        "require_strata": {"both": ["kind-code", "kind-name", "kind-name-nearmiss", "grid-build", "grid", "dict", "list", "dateTime", "xstr", "typed-json-matrix"]},
         "min_evals": {"quick": 50_000, "thorough": 1_000_000},
     },
     "C04": {
@@ -216,7 +220,7 @@ PROPS = {
                  "sample in quick); (b) random trees to paren depth 3 with every term kind and every literal kind the syntax admits "
                  "(escaped strings, numbers with units/exponents, dates, times, zoned timestamps, refs with dis, uris, symbols, bools). Each "
                  "is printed by the reference printer with random legal whitespace/line breaks, parsed by Filter::try_from, and the tree "
-                 "observed through the public Or/And/Term fields must equal the printed tree; then Display -> try_from must give an equal "
+                 "observed through the public Or/And/Term fields - and once more through the Visitor protocol (accept_visitor dispatch) - must equal the printed tree; then Display -> try_from must give an equal "
                  "tree and an == filter. distinct = distinct trees"),
         "assumptions": ["the display name of the Ref operand of '*==' and of relation terms is a don't-care (not printed by Display, ignored by Ref equality)",
                         "NaN/INF/Coord/XStr/collections are outside the filter syntax; tag names avoid the keywords and/or/not/true/false"],
@@ -283,10 +287,14 @@ PROPS = {
                  "(harness/src/refdefs.rs); reflect() of every def's own tag set and of random tag subsets, Reflection::fits and '^sym' "
                  "through an EvalContext over that namespace; (b) random acyclic taxonomies (<= 48 defs, depth <= 10; multiple inheritance, "
                  "diamonds, duplicate and undefined supertypes, conjuncts of defined parts, feature keys, rows without def, non-list 'is') "
-                 "with all symbols, all pairs and random records. distinct = distinct symbols / taxonomies / records"),
+                 "with all symbols, all pairs and random records; (c) the queries built on those: associations(parent, assoc) for stored and "
+                 "reciprocal-computed associations (is / tag_on / tags and two synthetic ones, incl. non-association and undefined ones) "
+                 "against the defs grid read directly, implementation() (conjunct parts + mandatory supertypes), def_of_dict, core_type_defs, "
+                 "Reflection.entity_type (the single most specific reflected entity def), and protos() (children text/list + tags flattened "
+                 "through fits) for records carrying a def with children. distinct = distinct symbols / taxonomies / records"),
         "assumptions": ["random taxonomies are acyclic and shallow (depth <= 10): all_supertypes_of re-expands shared ancestors, its cost is exponential in diamond depth",
                         "conjuncts are generated with defined parts only", "exhaustive refers to part (a)"],
-        "require_strata": {"both": ["real:symbol", "real:reflect", "random-taxonomy"]},
+        "require_strata": {"both": ["real:symbol", "real:reflect", "random-taxonomy", "random:taxonomy-with-associations", "real:protos-parent-with-children"]},
         "min_evals": {"quick": 500_000, "thorough": 500_000},
     },
     "C14": {
